@@ -54,6 +54,14 @@ NEEDS = {
  'C09-e': 'preceding_siblings back cursor taken from parent.last_child (copy-paste in a shared helper): forward iteration from the last child stops after one element, backward iteration starts at the wrong end',
  'C12-e': 'the removed-parent assertion of append_value moved into insert_last_unchecked, i.e. after the allocation: the refused call has already recycled a slot (or recycles the parent\'s own slot and succeeds)',
  'C13-e': 'reserve rounds the capacity up to a power of two and calls reserve_exact(target - capacity): measured from the wrong base, capacity() < count()+k whenever the arena has unused capacity',
+ 'C01-f': 'remove() re-derives the right end of the gap after detach from previous_sibling: removing a FIRST child that has children and a following sibling transplants the children with no next sibling, the following siblings drop off the parent\'s chain',
+ 'C03-f': 'append_value through a duplicated allocation path that does not reset last_free_slot when it takes the ONLY free slot: arena differs from new_node + append only in the free-list tail; the next removal then overwrites the new live node',
+ 'C04-f': 'remove() only-child fast path tests first_child == last_child AFTER detach: with exactly one remaining sibling the parent\'s child pointers are overwritten with x\'s children and the sibling is lost',
+ 'C05-f': 'checked_insert_after on a last child delegates to parent.checked_append and translates only AppendAncestor: inserting the direct parent after its last child reports AppendSelf although the two ids differ',
+ 'C08-f': 'checked_insert_after fast path for a new sibling without sibling links (an only child is not detached): the old parent keeps pointing at the moved node; a later remove_subtree of the old parent frees the live node and drops its payload (needs two calls; the first one breaks C01/C03)',
+ 'C10-f': 'checked_insert_after on a last child appends a node from ANOTHER parent without detaching it: the node sits in two child lists, forward and backward iteration of the old parent disagree',
+ 'C11-f': 'get_node_id_at guarded by is_allocated(position) comparing the ONE-based position with capacity(): None for the live last position of an exactly full arena',
+ 'C14-f': 'fast path for a childless start node returns write!(f, "{}", payload) before the alternate flag is read: {:#} / {:#?} of a leaf print the plain rendering',
  'C14-b': 'write_str fast path for fragments arriving mid-line tests ends_with(newline) instead of contains: a later chunk with an interior newline loses guides and alignment',
 }
 rows = {}
